@@ -1436,8 +1436,13 @@ ldb_versions_apply(ldb_versions_t *vset, ldb_edit_t *edit, ldb_mutex_t *mu) {
     ldb_version_destroy(v);
 
     if (fname[0]) {
-      ldb_writer_destroy(vset->descriptor_log);
-      ldb_wfile_destroy(vset->descriptor_file);
+      /* Creating the new MANIFEST may have failed before either
+         object existed. */
+      if (vset->descriptor_log != NULL)
+        ldb_writer_destroy(vset->descriptor_log);
+
+      if (vset->descriptor_file != NULL)
+        ldb_wfile_destroy(vset->descriptor_file);
 
       vset->descriptor_log = NULL;
       vset->descriptor_file = NULL;
